@@ -282,12 +282,12 @@ def run(sh):
         run_families(sh)
     n = 0
     while not sh.expired():
-        cases = [gen_sheet(rng) for _ in range(16)]
+        cases = [gen_sheet(rng) for _ in range(8)]
         specs = []
         for al, rules in cases:
             specs.append({"text": sheet_text(rules)})
             specs.append({"text": sheet_text(rules, list(range(len(rules)))[::-1])})
-        rs = sh.worker("R", timeout=6, mem_gb=3).batch(specs, timeout=30)
+        rs = sh.worker("R", timeout=3, mem_gb=3).batch(specs, timeout=10)
         for ci, (al, rules) in enumerate(cases):
             text = sheet_text(rules)
             judge_sheet(sh, al, rules, rs[2 * ci], text, nodes, rs[2 * ci + 1])
